@@ -120,11 +120,16 @@ inline bool maybeDelay(ThreadRec *t, unsigned permille, unsigned maxUs, std::ato
 struct Tramp {
     void *(*fn)(void *);
     void *arg;
+    ThreadRec *rec;   // allocated by the creator: the thread exists for the monitor before its first instruction
 };
+
+ThreadRec *allocRecord();
+void adoptRecord(ThreadRec *r);
 
 void *trampoline(void *p) {
     Tramp tr = *static_cast<Tramp *>(p);
     delete static_cast<Tramp *>(p);
+    adoptRecord(tr.rec);
     ThreadRec *t = self();
     maybeDelay(t, gDelays.threadStart, gDelays.threadStartMaxUs, gCounters.threadStart);
     void *r = tr.fn(tr.arg);
@@ -176,7 +181,18 @@ void *monitorMain(void *) {
         bool allParked = true;
         for (int i = 0; i < hw && allParked; ++i) {
             ThreadRec &r = table()[i];
-            if (!r.used.load() || r.finished.load()) continue;
+            if (!r.used.load()) continue;
+            int fin = r.finished.load();
+            if (fin == 2) continue;                       // known to be gone
+            if (fin == 1) {
+                // The start routine has returned, but the kernel task may still be on its way out (TLS
+                // destructors, or simply preempted on a loaded machine) and whoever joins it cannot
+                // proceed before it is gone: as long as the task exists the process is not quiescent.
+                char st = taskState(r.tid.load());
+                if (st == '?') r.finished.store(2);
+                else allParked = false;
+                continue;
+            }
             ++unfinished;
             int p = r.park.load();
             if (p == None || p == CondPre) allParked = false;
@@ -221,8 +237,8 @@ void *monitorMain(void *) {
 uint64_t stamp() { return gSeq.fetch_add(1, std::memory_order_seq_cst) + 1; }
 uint64_t events() { return gEvents.load(); }
 
-ThreadRec *self() {
-    if (tSelf) return tSelf;
+namespace {
+ThreadRec *allocRecord() {
     ThreadRec *t = table();
     int hw = highWater.load();
     int idx = -1;
@@ -244,7 +260,7 @@ ThreadRec *self() {
     }
     ThreadRec &r = t[idx];
     r.finished.store(0);
-    r.tid.store((int) syscall(SYS_gettid));
+    r.tid.store(0);
     r.role.store(-1);
     r.park.store(None);
     r.parkAddr.store(nullptr);
@@ -253,7 +269,17 @@ ThreadRec *self() {
     r.rng = (gSeed.load() * 0x9e3779b97f4a7c15ULL) ^ ((uint64_t) (idx + 1) * 0xbf58476d1ce4e5b9ULL) ^ gSeq.load();
     if (!r.rng) r.rng = 1;
     r.index = idx;
-    tSelf = &r;
+    return &r;
+}
+void adoptRecord(ThreadRec *r) {
+    r->tid.store((int) syscall(SYS_gettid));
+    tSelf = r;
+}
+} // namespace
+
+ThreadRec *self() {
+    if (tSelf) return tSelf;
+    adoptRecord(allocRecord());
     return tSelf;
 }
 
@@ -418,9 +444,12 @@ int pthread_create(pthread_t *th, const pthread_attr_t *attr, void *(*fn)(void *
     resolve();
     gEvents.fetch_add(1, std::memory_order_relaxed);
     gCounters.creates.fetch_add(1, std::memory_order_relaxed);
-    auto *tr = new Tramp{fn, arg};
+    auto *tr = new Tramp{fn, arg, allocRecord()};
     int r = realCreate(th, attr, trampoline, tr);
-    if (r != 0) delete tr;
+    if (r != 0) {
+        tr->rec->used.store(0);
+        delete tr;
+    }
     return r;
 }
 
